@@ -54,6 +54,14 @@ func canonName(n string) string {
 	return n
 }
 
+// the target of a rename event ("<from> <to>"), canonical; "" for other events
+func renameTarget(n string) string {
+	if j := strings.Index(n, " "); j >= 0 {
+		return canonName(n[j+1:])
+	}
+	return ""
+}
+
 func loaddirLine(img map[string][]byte) string {
 	var names []string
 	for n := range img {
@@ -234,6 +242,12 @@ func runCrash(a []string) {
 		for k, ev := range events {
 			hdr := fmt.Sprintf("ev k=%d kind=%s path=%s n=%d inflight=%d synced=%s", k+1, ev.kind,
 				strings.ReplaceAll(canonName(ev.path), " ", ","), ev.n, ev.opIdx, syncedStr(ev.synced))
+			if to := renameTarget(ev.path); to != "" {
+				hdr += " to=" + to
+			}
+			if first := strings.SplitN(ev.path, " ", 2)[0]; strings.HasSuffix(first, ".tmp") {
+				hdr += " tmp=1" // a step of index.Write's temporary file, not of the segment swap
+			}
 			observeImage(root, fmt.Sprintf("%s@%d", c.name, k+1), hdr, ev.image, openLine, keys, times, probeKeys)
 			// power loss (C06): at the last event of each API call, files lose unsynced tails
 			if k+1 == len(events) || events[k+1].opIdx != ev.opIdx {
